@@ -469,7 +469,7 @@ FLOORS["C12"] = {"drop_orders_enumerated": 72, "evaluations": 5000, "distinct_no
 prop("C06", level="exploration",
      title="Aligned 1/2/4/8-byte guest accesses are never torn",
      technique="three layered monitors: (1) cfg-guarded trace hook in the byte-copy helper - for every transfer the recorded primitive accesses must tile the transfer once, ascending, aligned to their width on both sides, and an aligned 1/2/4/8-byte transfer must be exactly one access of that width, never a bulk copy; complete grid over length x guest alignment x local alignment x entry point; (2) valgrind lackey memory trace of a probe binary: between marker stores exactly one machine access of width n to the guest location; (3) black-box writer/reader tearing detector; atomic store/load round trip and refusal of every misaligned offset",
-     rule="cases = transfers. Hook grid (complete): n in 0..12 x guest address mod 8 x local address mod 8 x 27 entry points (write/read/write_slice/read_slice at slice, region and guest level; copy_from/copy_to<u8> on slices and array refs; read_volatile_from(&[u8]), read_exact_volatile_from(Cursor), write_volatile_to(&mut [u8]), write_all_volatile_to(Vec); guest read_exact_volatile_from) + write_obj/read_obj of u8,u16,u32,u64,i32,usize at 8 guest alignments x 3 levels. Lackey: 17 entry points x {u8,u16,u32,u64} x 3 offsets on the release (quick) and debug+release (thorough) binaries. Tearing: u16/u32/u64 x {slice, region, guest} x 2*10^5 (quick) / 2*10^6 (thorough) reads each. Atomics: 6 types x 24 offsets x 3 orderings + guest level. distinct key = (entry point, direction, n, guest mod 8, local mod 8, judged-single | tiling); all non-trivial",
+     rule="cases = transfers. Hook grid (complete): n in 0..12 x guest address mod 8 x local address mod 8 x 27 entry points (write/read/write_slice/read_slice at slice, region and guest level; copy_from/copy_to<u8> on slices and array refs; read_volatile_from(&[u8]), read_exact_volatile_from(Cursor), write_volatile_to(&mut [u8]), write_all_volatile_to(Vec); guest read_exact_volatile_from) + write_obj/read_obj of u8,u16,u32,u64,i32,usize at 8 guest alignments x 3 levels. Lackey: 17 entry points x {u8,u16,u32,u64} x 3 offsets on the release (quick) and debug+release (thorough) binaries. Tearing: u16/u32/u64 x {slice, region, guest} x 2*10^5 (quick) / 2*10^6 (thorough) reads each. Atomics: 6 types x 24 offsets x 3 orderings + guest level on an aligned base; 7 types x views whose base is skewed by 0..8 bytes (derived with offset / get_slice / split_at) x 16 offsets x 2 orderings for store, load and get_atomic_ref (acceptance must follow the alignment of the address; each batch runs in a forked child because a wrongly accepted misaligned reference aborts a checked build). distinct key = (entry point, direction, n, guest mod 8, local mod 8, judged-single | tiling); all non-trivial",
      exhaustive_note="hook grid: every (n <= 12, guest mod 8, local mod 8) for every entry point that funnels into the copy helper",
      assumptions=["on x86-64 a single mov of width n is the observable; a change that keeps one machine access but drops `volatile` at the language level is observationally identical (stated in DESIGN.md §9)", "transfers that straddle two mappings and guest addresses whose host address is not aligned are not in the judged class", "whole-object forms: the local value's address is taken from the trace (it is naturally aligned by construction)"],
      level_text="Hook-level oracle over a completely enumerated alignment grid, cross-checked at machine level (lackey) and by a concurrent tearing detector; held-on-observed.",
